@@ -1,38 +1,259 @@
-(* C01 — Sync convergence (interim: sanity theorem about the convergence oracle). *)
-From Coq Require Import List NArith Bool.
-From FS Require Import Sx Model.Path Model.Stat Model.Tree Model.Converge Proofs.Lex.
+(* C01 — Sync convergence: after a successful transfer the destination equals the source view.
+   Only the property theorems (closed by [exact]) with their [Print Assumptions], and
+   non-vacuity examples.
+
+   Reading guide.
+   * A listing with contents is a list of (Stat, bytes) in walk order.  [wf_entries E] = strictly
+     ascending in protocol path order, every "/"-prefix of a path is a listed directory, and hard
+     links are presented canonically: a link entry names an earlier entry that is the file itself
+     (empty Linkname), with the same metadata and bytes ([links_canon]) — what fs.Walk produces
+     for a quiescent tree ([walk_views_are_wf]).
+   * [receive_abs H hdr mode d A B] (Model/AbsDest.v, level A of DESIGN section 3; C02/C05) =
+     doubleWalkDiff of the old destination listing A against the source listing B, every change
+     applied by the abstract DiskWriter.HandleChange to the destination map [dest_of A]
+     (path -> stat, bytes, inode class).  [view_of] projects that map onto the observation record
+     [obs] on which the convergence relation is stated; the raw lstat snapshot of the REAL
+     destination is projected onto the same record by [obs_of_raw].
+   * [approx A B dest] (Model/Converge.v) is the "equal" of the property statement: equal path
+     set; per entry: type, permission+setuid/setgid/sticky (not for symlinks: Linux has none),
+     uid/gid, ns mtime of every non-directory and of every directory the transfer created, bytes of
+     regular files, symlink targets, device numbers, xattrs of regular files and directories the
+     transfer created ([created_by_transfer A s]: absent from A or of another type there; for a
+     hard-link entry the xattr clause applies when the first name of its group is created:
+     [inode_created] — a new name for an inode that stays in place shows that inode's xattrs);
+     hard-link groups as a PARTITION of the paths of regular files: two paths show one inode in
+     the destination iff they are in one link group of the source.
+   * [AbsDest.identity_faithful d A B] (same identity key => same bytes) is part of the
+     specification in dirty mode (C02 requires such files not to be re-sent): see
+     [unrestricted_convergence_refuted]. *)
+From Coq Require Import List NArith Bool Sorting.Sorted.
+From FS Require Import Sx Model.Path Model.Stat Model.Tree Model.Walk Model.Diff Model.AbsDest Model.Converge Model.ConvergeA
+  Proofs.Lex Proofs.DiffP Proofs.ReceiveP Proofs.OracleP Proofs.ConvergeP Proofs.MergeP Proofs.WalkWfP Proofs.DirTimesP Proofs.XattrViewP Proofs.C01TopP.
 Import ListNotations.
+Open Scope N_scope.
 
-Lemma find_raw_some p l d : find_raw p l = Some d -> In d l /\ r_path d = p.
+(* Fresh / dirty mode.  For all well-formed listings of the old destination and of the source, if
+   files with the same identity key have the same bytes, the transfer does not fail and leaves a
+   destination that is ≈ the source view — including the hard-link partition. *)
+Theorem diff_apply_converges : forall (H : bytes -> bytes) (hdr : stat -> bytes) d A B,
+  wf_entries A -> wf_entries B -> AbsDest.identity_faithful d A B ->
+  let r := receive_abs H hdr Fresh d A B in
+  ds_err r = false /\ approx A B (view_of (ds_map r)).
+Proof. exact diff_apply_converges_top. Qed.
+
+(* Merge mode: the result is the overlay of the source over the old destination.  Every source
+   entry is there with exactly the stat that was sent (and its bytes); every old entry whose path
+   the source neither names nor covers with a non-directory ([covered]) is LITERALLY untouched
+   (stat incl. mtime and xattrs, bytes, inode class); nothing else is left; no hypothesis on
+   identity keys, none on the hard links of A. *)
+Theorem merge_is_overlay : forall (H : bytes -> bytes) (hdr : stat -> bytes) d A B,
+  wf_listing (map fst A) -> wf_entries B ->
+  let r := receive_abs H hdr Merge d A B in
+  ds_err r = false /\ approx_merge A B (view_of (ds_map r)) /\
+  (forall p, notin (map fst B) p -> ~ covered (map fst B) p ->
+             alookup p (ds_map r) = alookup p (dest_of A)) /\
+  (forall s c, In (s, c) B -> exists e, alookup (st_path s) (ds_map r) = Some e /\ de_stat e = s /\
+                                        (AbsDest.is_reg s = true -> de_bytes e = c)).
+Proof. exact merge_is_overlay_top. Qed.
+
+(* Any prior content, in particular the leftovers of an aborted run (".tmp.*" names, partially
+   written files): it suffices that a file of the old destination which does not hold the
+   source's bytes differs from the source's entry in size, mtime or mode — a partially written
+   file carries the time of its last write, not the source's mtime. *)
+Theorem converges_from_any_prior : forall (H : bytes -> bytes) (hdr : stat -> bytes) d A B,
+  wf_entries A -> wf_entries B ->
+  (forall sa ba sb bb, In (sa, ba) A -> In (sb, bb) B -> st_path sa = st_path sb -> AbsDest.is_reg sb = true ->
+     ba = bb \/ st_size sa <> st_size sb \/ st_mtime sa <> st_mtime sb \/ st_mode sa <> st_mode sb) ->
+  let r := receive_abs H hdr Fresh d A B in
+  ds_err r = false /\ approx A B (view_of (ds_map r)).
+Proof. exact converges_from_any_prior_top. Qed.
+
+(* Oracle = specification.  The executable relation that the harness evaluates on the raw lstat
+   snapshot of the real destination is, by definition, [converged_o] on the projected snapshot,
+   and [converged_o] is EQUIVALENT to the declarative relation (both modes). *)
+Theorem oracle_sound : forall merge prior src (dest : list raw),
+  converged merge prior src dest = true ->
+  if merge then approx_merge prior src (map obs_of_raw dest) else approx prior src (map obs_of_raw dest).
+Proof. exact oracle_sound_top. Qed.
+
+Theorem oracle_iff : forall prior src dest,
+  (converged_o false prior src dest = true <-> approx prior src dest) /\
+  (converged_o true prior src dest = true <-> approx_merge prior src dest).
+Proof. exact oracle_iff_top. Qed.
+
+(* ... and the model's own result passes that oracle. *)
+Theorem model_passes_oracle : forall (H : bytes -> bytes) (hdr : stat -> bytes) d A B,
+  wf_entries A -> wf_entries B -> AbsDest.identity_faithful d A B ->
+  converged_o false A B (view_of (ds_map (receive_abs H hdr Fresh d A B))) = true.
+Proof. exact model_passes_oracle_proof. Qed.
+
+(* The hypothesis identity_faithful is necessary: without it the statement is FALSE of the model
+   (and of the code: C02 demands that such a file is not re-sent).  Witness: one regular file,
+   same size, mtime, mode and owner on both sides, different bytes — nothing is requested and the
+   destination keeps the old bytes. *)
+Theorem unrestricted_convergence_refuted :
+  exists A B, wf_entries A /\ wf_entries B /\
+    forall H hdr, let r := receive_abs H hdr Fresh DMetadata A B in
+      ds_err r = false /\ ds_reqs r = [] /\ ~ approx A B (view_of (ds_map r)).
+Proof. exact unrestricted_convergence_refuted_proof. Qed.
+
+(* Composition Walk -> Diff -> AbsDest.  The listing that the walk model of C09 (Model/Walk.v)
+   produces for ANY well-formed tree — every Stat paired with the bytes of its inode ([cont]:
+   contents per lstat record) — satisfies the hypotheses: strictly ascending, ancestor-closed,
+   canonical hard links.  Beyond wf_tree: [ino_consistent] (C09: st_nlink counts every name of an
+   inode) and [inode_coherent] (two non-directory names with one inode number show the same
+   lstat record; contains C09's one_fs). *)
+Theorem walk_views_are_wf : forall (cont : lrec -> bytes) t,
+  wf_tree t -> ino_consistent t -> inode_coherent t ->
+  wf_entries (walk_entries cont t) /\ map fst (walk_entries cont t) = walk t.
+Proof. exact walk_views_are_wf_proof. Qed.
+
+(* ... so the convergence theorem applies to every real pair of (quiescent) trees. *)
+Theorem converges_on_walked_trees : forall (H : bytes -> bytes) (hdr : stat -> bytes) d contA tA contB tB,
+  wf_tree tA -> ino_consistent tA -> inode_coherent tA ->
+  wf_tree tB -> ino_consistent tB -> inode_coherent tB ->
+  let A := walk_entries contA tA in
+  let B := walk_entries contB tB in
+  AbsDest.identity_faithful d A B ->
+  let r := receive_abs H hdr Fresh d A B in
+  ds_err r = false /\ approx A B (view_of (ds_map r)).
+Proof. exact converges_on_walked_trees_top. Qed.
+
+(* Directory mtimes.  [receive_t] (Model/ConvergeA.v) runs the same writer with the on-disk
+   behaviour of directory mtimes: every create / rename-into-place / remove stamps the parent
+   directory with the current time ([now i], arbitrary), Mkdir records the path in dirModTimes,
+   and DiskWriter.Wait re-applies the recorded mtimes.  Its map IS the map of receive_abs, and the
+   view with the mtimes the directories really show ([view_t]) is ≈ the source: the directories
+   created by this transfer show the source's mtime.  Pre-existing directories are not claimed
+   (example_dir_mtimes: such a directory ends with the time of the last change below it). *)
+Theorem dir_mtimes_fresh : forall (H : bytes -> bytes) (hdr : stat -> bytes) (now : N -> N) d A B,
+  wf_entries A -> wf_entries B -> AbsDest.identity_faithful d A B ->
+  let s := receive_t now Fresh d A B in
+  ts_err s = false /\ ts_map s = ds_map (receive_abs H hdr Fresh d A B) /\ approx A B (view_t s).
+Proof. exact dir_mtimes_fresh_proof. Qed.
+
+Theorem dir_mtimes_merge : forall (H : bytes -> bytes) (hdr : stat -> bytes) (now : N -> N) d A B,
+  wf_listing (map fst A) -> wf_entries B ->
+  let s := receive_t now Merge d A B in
+  ts_err s = false /\ ts_map s = ds_map (receive_abs H hdr Merge d A B) /\ approx_merge A B (view_t s).
+Proof. exact dir_mtimes_merge_proof. Qed.
+
+(* The predicted observation that the glue compares the REAL destination snapshot with, field by
+   field ([view_x], Model/ConvergeA.v: AbsDest's map + directory mtimes + xattrs as the code
+   writes them — per inode, old keys of a directory kept under the new ones), is ≈ the source. *)
+Theorem predicted_view_converges : forall (H : bytes -> bytes) (hdr : stat -> bytes) (now : N -> N) d A B,
+  wf_entries A -> wf_entries B -> AbsDest.identity_faithful d A B ->
+  let s := receive_t now Fresh d A B in
+  ts_err s = false /\ approx A B (view_x A s).
+Proof. exact view_x_converges_proof. Qed.
+
+Print Assumptions diff_apply_converges.
+Print Assumptions merge_is_overlay.
+Print Assumptions converges_from_any_prior.
+Print Assumptions oracle_sound.
+Print Assumptions oracle_iff.
+Print Assumptions model_passes_oracle.
+Print Assumptions unrestricted_convergence_refuted.
+Print Assumptions walk_views_are_wf.
+Print Assumptions converges_on_walked_trees.
+Print Assumptions dir_mtimes_fresh.
+Print Assumptions dir_mtimes_merge.
+Print Assumptions predicted_view_converges.
+
+(* ------------------------------------------------------------------ examples *)
+Definition mk (p : bytes) (mode uid gid size mtime : N) (ln : bytes) (xa : list (bytes * bytes)) : stat :=
+  {| st_path := p; st_mode := mode; st_uid := uid; st_gid := gid; st_size := size; st_mtime := mtime;
+     st_linkname := ln; st_devmajor := 0; st_devminor := 0; st_xattrs := xa |}.
+Definition p_tmp := [46; 116; 109; 112; 46; 53].          (* ".tmp.5": leftover of an aborted run *)
+Definition pa := [97]. Definition pb := [98]. Definition pc := [99].
+Definition p_ax := [97; 47; 120]. Definition p_az := [97; 47; 122]. Definition p_by := [98; 47; 121].
+Definition xk : list (bytes * bytes) := [([117], [1])].
+Definition dir (p : bytes) (perm mt : N) := mk p (ModeDir + perm) 0 0 0 mt [] [].
+
+Definition exA : list AbsDest.entry :=
+  [ (mk p_tmp 384 0 0 2 99 [] [], [7; 7]);             (* partial temp file: deleted *)
+    (dir pa 448 7, []); (mk p_ax 420 0 0 3 1 [] [], [1; 1; 1]);   (* a/ 0700 -> 0755 in place; a/x unchanged *)
+    (dir pb 493 7, []); (mk p_by 420 0 0 3 1 [] [], [2; 2; 2]);   (* b/ -> file b *)
+    (mk pc 420 0 0 3 1 [] [], [3; 3; 3]) ].                       (* c: partially written, other mtime *)
+Definition exB : list AbsDest.entry :=
+  [ (dir pa 493 8, []); (mk p_ax 420 0 0 3 1 [] [], [1; 1; 1]);
+    (mk p_az 420 0 0 3 1 p_ax [], [1; 1; 1]);                     (* new hard link to the unchanged a/x *)
+    (mk pb 420 0 0 2 5 [] xk, [8; 8]);
+    (mk pc 420 0 0 3 2 [] [], [3; 3; 4]) ].
+Definition Hx (b : bytes) : bytes := b.
+Definition hx (s : stat) : bytes := st_path s.
+
+Example hypotheses_satisfiable :
+  wf_entries exA /\ wf_entries exB /\ AbsDest.identity_faithful DMetadata exA exB.
 Proof.
-  induction l as [|x l IH]; simpl; [discriminate|].
-  destruct (bytes_eqb p (r_path x)) eqn:E.
-  - intros H. inversion H; subst. apply bytes_eqb_eq in E. split; [left; reflexivity|congruence].
-  - intros H. destruct (IH H). split; [right|]; assumption.
+  split; [apply wf_entries_b_sound; vm_compute; reflexivity|].
+  split; [apply wf_entries_b_sound; vm_compute; reflexivity|].
+  apply identity_faithful_b_sound; vm_compute; reflexivity.
 Qed.
 
-Lemma find_entry_some p l e : find_entry p l = Some e -> In e l /\ st_path (fst e) = p.
-Proof.
-  induction l as [|x l IH]; simpl; [discriminate|].
-  destruct (bytes_eqb p (st_path (fst x))) eqn:E.
-  - intros H. inversion H; subst. apply bytes_eqb_eq in E. split; [left; reflexivity|congruence].
-  - intros H. destruct (IH H). split; [right|]; assumption.
-Qed.
+(* the leftover is gone, b is a file with its xattr, a/z shares the inode class of the untouched
+   a/x, and the executable oracle accepts the result *)
+Example example_converges :
+  let r := receive_abs Hx hx Fresh DMetadata exA exB in
+  ds_err r = false
+  /\ map o_path (view_of (ds_map r)) = [pc; pb; p_az; pa; p_ax]
+  /\ option_map de_ino (alookup p_az (ds_map r)) = option_map de_ino (alookup p_ax (ds_map r))
+  /\ option_map de_ino (alookup p_ax (ds_map r)) = Some 2
+  /\ converged_o false exA exB (view_of (ds_map r)) = true.
+Proof. vm_compute. repeat split; reflexivity. Qed.
 
-(* In non-merge mode the oracle forces the destination's path set to equal the source's. *)
-Theorem converged_same_paths : forall prior src dest,
-  converged false prior src dest = true ->
-  (forall e, In e src -> exists d, In d dest /\ r_path d = st_path (fst e)) /\
-  (forall d, In d dest -> exists e, In e src /\ st_path (fst e) = r_path d).
-Proof.
-  intros prior src dest H. unfold converged in H.
-  repeat (apply andb_true_iff in H; destruct H as [H ?]).
-  split.
-  - intros e He. rewrite forallb_forall in H. specialize (H e He).
-    destruct (find_raw (st_path (fst e)) dest) eqn:E; [|discriminate].
-    apply find_raw_some in E. destruct E. eauto.
-  - intros d Hd. rewrite forallb_forall in H2. specialize (H2 d Hd).
-    destruct (find_entry (r_path d) src) eqn:E; [|discriminate].
-    apply find_entry_some in E. destruct E. eauto.
-Qed.
-Print Assumptions converged_same_paths.
+(* merge: nothing of the old destination goes away except what lies below the replaced b/ *)
+Example example_merge_overlay :
+  let r := receive_abs Hx hx Merge DMetadata exA exB in
+  ds_err r = false
+  /\ map o_path (view_of (ds_map r)) = [pc; pb; p_az; p_ax; pa; p_tmp]
+  /\ converged_o true exA exB (view_of (ds_map r)) = true.
+Proof. vm_compute. repeat split; reflexivity. Qed.
+
+(* the oracle is not trivially true: it rejects the old destination itself *)
+Example example_oracle_rejects :
+  converged_o false exA exB (view_of (dest_of exA)) = false
+  /\ converged_o false collide_A collide_B
+       (view_of (ds_map (receive_abs Hx hx Fresh DMetadata collide_A collide_B))) = false.
+Proof. vm_compute. split; reflexivity. Qed.
+
+(* directory mtimes: d/ is created by the transfer and gets a child afterwards — after Wait it
+   shows the source's mtime 8; the pre-existing a/ (metadata rewritten in place, then a/z linked
+   into it) ends with the clock value of that later change, which the relation does not claim *)
+Definition pd := [100]. Definition p_df := [100; 47; 102].
+Definition exB2 : list AbsDest.entry := exB ++ [ (dir pd 493 8, []); (mk p_df 420 0 0 1 3 [] [], [9]) ].
+Definition clock (i : N) : N := 1000 + i.
+
+Example example_dir_mtimes :
+  let s := receive_t clock Fresh DMetadata exA exB2 in
+  ts_err s = false
+  /\ option_map o_mtime (find_obs pd (view_t s)) = Some 8
+  /\ option_map o_mtime (find_obs pa (view_t s)) = Some 1002
+  /\ converged_o false exA exB2 (view_t s) = true.
+Proof. vm_compute. repeat split; reflexivity. Qed.
+
+(* the walk of a small tree with a hard-link pair gives a well-formed listing *)
+Definition lr (mode ino nlink : N) : lrec :=
+  {| l_mode := mode; l_uid := 0; l_gid := 0; l_size := 3; l_mtime := 5; l_rdev := 0; l_ino := ino;
+     l_nlink := nlink; l_target := []; l_xattrs := []; l_dev := 1 |}.
+Definition ex_tree : tree :=
+  T (lr 16877 1 2) [ ([97], T (lr 16877 2 2) [ ([120], T (lr 33188 10 2) []) ]);
+                      ([98], T (lr 33188 10 2) []) ].
+Example example_walk_wf :
+  wf_entries_b (walk_entries (fun r => [l_ino r]) ex_tree) = true
+  /\ map (fun e => (st_path (fst e), st_linkname (fst e))) (walk_entries (fun r => [l_ino r]) ex_tree)
+     = [([97], []); ([97; 47; 120], []); ([98], [97; 47; 120])].
+Proof. vm_compute. split; reflexivity. Qed.
+
+(* xattrs per inode: the prior b carries user.old under the same identity key as the source's b
+   (no xattrs) and the source adds the link c -> b: both names show the old key — which the
+   relation does not claim, the inode was not created by this transfer (corpus/C01) *)
+Definition xo : list (bytes * bytes) := [([111], [1])].
+Definition stA : list AbsDest.entry := [ (mk pb 420 0 0 1 5 [] xo, [9]) ].
+Definition stB : list AbsDest.entry := [ (mk pb 420 0 0 1 5 [] [], [9]); (mk pc 420 0 0 1 5 pb [], [9]) ].
+Example example_stale_xattrs :
+  let s := receive_t clock Fresh DMetadata stA stB in
+  map (fun o => (o_path o, o_xattrs o)) (view_x stA s) = [(pc, xo); (pb, xo)]
+  /\ inode_created stA stB (mk pc 420 0 0 1 5 pb []) = false
+  /\ converged_o false stA stB (view_x stA s) = true.
+Proof. vm_compute. repeat split; reflexivity. Qed.
